@@ -57,6 +57,18 @@ class SourceModule(Object):
             return {}
         return self.scope.exported_names  # type: ignore[return-value]
 
+    def get_attr(self, ctx, name):
+        # type: (t.Any, str) -> Object | Name | None
+        attr = self._attrs.get(name)
+        if attr is None and self.filename.endswith('__init__.py'):
+            # a sub-module is an attribute of its package as soon as any
+            # module has imported it
+            try:
+                return self.project.get_module(self.name + '.' + name)
+            except ImportError:
+                return None
+        return attr
+
 
 class ImportedModule(Object):
     def __init__(self, module):
